@@ -200,11 +200,9 @@ func (ex *Exec) enabled(st *State, c *cont) *smt.Term {
 	case *ssa.Call:
 		switch isSyncCall(&in.Call) {
 		case "lock":
-			id := ex.syncCell(st, ex.val(fr, in.Call.Args[0]), "mutex")
-			return smt.Eq(st.heap[id].(*smt.Term), bv64(0))
+			return smt.Eq(ex.syncRead(st, ex.val(fr, in.Call.Args[0]), "mutex"), bv64(0))
 		case "wait":
-			id := ex.syncCell(st, ex.val(fr, in.Call.Args[0]), "wg")
-			return smt.Eq(st.heap[id].(*smt.Term), bv64(0))
+			return smt.Eq(ex.syncRead(st, ex.val(fr, in.Call.Args[0]), "wg"), bv64(0))
 		}
 	}
 	return smt.True
@@ -398,23 +396,22 @@ func (ex *Exec) callE2(st *State, c *cont, f *gframe, fr *Frame, in *ssa.Call) b
 	call := &in.Call
 	switch isSyncCall(call) {
 	case "lock":
-		id := ex.syncCell(st, ex.val(fr, call.Args[0]), "mutex")
-		st.heap[id] = bv64(1)
+		g := bv64(int64(ex.curG + 1))
+		ex.syncWrite(st, ex.val(fr, call.Args[0]), "mutex", func(*smt.Term) *smt.Term { return g })
 		return false
 	case "unlock":
-		id := ex.syncCell(st, ex.val(fr, call.Args[0]), "mutex")
-		ex.implicitPanic(st, in, "unlock of unlocked mutex", smt.Eq(st.heap[id].(*smt.Term), bv64(0)))
-		st.heap[id] = bv64(0)
+		p := ex.val(fr, call.Args[0])
+		ex.implicitPanic(st, in, "unlock of unlocked mutex", smt.Eq(ex.syncRead(st, p, "mutex"), bv64(0)))
+		ex.syncWrite(st, p, "mutex", func(*smt.Term) *smt.Term { return bv64(0) })
 		return false
 	case "wait":
 		return false
 	case "add":
-		id := ex.syncCell(st, ex.val(fr, call.Args[0]), "wg")
-		st.heap[id] = smt.Add(st.heap[id].(*smt.Term), ex.val(fr, call.Args[1]).(*smt.Term))
+		d := ex.val(fr, call.Args[1]).(*smt.Term)
+		ex.syncWrite(st, ex.val(fr, call.Args[0]), "wg", func(o *smt.Term) *smt.Term { return smt.Add(o, d) })
 		return false
 	case "done":
-		id := ex.syncCell(st, ex.val(fr, call.Args[0]), "wg")
-		st.heap[id] = smt.Sub(st.heap[id].(*smt.Term), bv64(1))
+		ex.syncWrite(st, ex.val(fr, call.Args[0]), "wg", func(o *smt.Term) *smt.Term { return smt.Sub(o, bv64(1)) })
 		return false
 	}
 	// resolve the callee
@@ -471,13 +468,11 @@ func (ex *Exec) callE2(st *State, c *cont, f *gframe, fr *Frame, in *ssa.Call) b
 func (ex *Exec) runDeferredE2(st *State, f *gframe, fr *Frame, site ssa.Instruction, d *deferEntry) {
 	switch isSyncCall(d.Call) {
 	case "unlock":
-		id := ex.syncCell(st, d.Args[0], "mutex")
-		ex.implicitPanic(st, site, "unlock of unlocked mutex", smt.Eq(st.heap[id].(*smt.Term), bv64(0)))
-		st.heap[id] = bv64(0)
+		ex.implicitPanic(st, site, "unlock of unlocked mutex", smt.Eq(ex.syncRead(st, d.Args[0], "mutex"), bv64(0)))
+		ex.syncWrite(st, d.Args[0], "mutex", func(*smt.Term) *smt.Term { return bv64(0) })
 		return
 	case "done":
-		id := ex.syncCell(st, d.Args[0], "wg")
-		st.heap[id] = smt.Sub(st.heap[id].(*smt.Term), bv64(1))
+		ex.syncWrite(st, d.Args[0], "wg", func(o *smt.Term) *smt.Term { return smt.Sub(o, bv64(1)) })
 		return
 	case "lock", "wait":
 		panic(unsupported("deferred blocking call"))
@@ -660,7 +655,9 @@ func (ex *Exec) RunConcurrent(st *State, site ssa.Instruction, K int, monitor Va
 				}
 				var results []segResult
 				budget := segInstrLimit
+				ex.curG = g.id + 1
 				ex.explore(s, cnd, a.c.clone(), true, nil, &results, &budget)
+				ex.curG = 0
 				done := smt.False
 				for _, r := range results {
 					if r.st.dead {
@@ -856,4 +853,53 @@ func shortName(s string) string {
 		return s[i+1:]
 	}
 	return s
+}
+
+// checkProtected: an access to an object registered with verifrt.Protect must happen while the accessing
+// goroutine holds the associated mutex (lock discipline; checked only inside goroutines of a concurrent run).
+func (ex *Exec) checkProtected(st *State, site ssa.Instruction, obj int, what string) {
+	if ex.curG == 0 || ex.protected == nil {
+		return
+	}
+	if strings.Contains(what, "read") || strings.Contains(what, "len") || strings.Contains(what, "range") {
+		// reads by the goroutine that is the only writer are not races; only modifications are checked
+		return
+	}
+	mu, ok := ex.protected[obj]
+	if !ok {
+		return
+	}
+	cur, ok := st.heap[mu].(*smt.Term)
+	if !ok {
+		cur = bv64(0)
+	}
+	held := smt.Eq(cur, bv64(int64(ex.curG+1)))
+	if held.IsTrue() {
+		return
+	}
+	ex.outcome("assert", "C16: device state is only modified while holding its mutex ("+what+")", site, smt.And(st.pc, smt.Not(held)))
+}
+
+// syncRead / syncWrite access the state cell of a mutex or wait group addressed by a (possibly guarded) pointer.
+func (ex *Exec) syncRead(st *State, p Value, kind string) *smt.Term {
+	if ch, ok := p.(*ChoiceV); ok {
+		return smt.Ite(ch.C, ex.syncRead(st, ch.A, kind), ex.syncRead(st, ch.B, kind))
+	}
+	if _, isNil := p.(*NilV); isNil {
+		return bv64(0)
+	}
+	id := ex.syncCell(st, p, kind)
+	return st.heap[id].(*smt.Term)
+}
+
+func (ex *Exec) syncWrite(st *State, p Value, kind string, f func(old *smt.Term) *smt.Term) {
+	ex.withChoice(st, p, func(st *State, q Value) Value {
+		if _, isNil := q.(*NilV); isNil {
+			st.kill()
+			return nil
+		}
+		id := ex.syncCell(st, q, kind)
+		st.heap[id] = f(st.heap[id].(*smt.Term))
+		return nil
+	})
 }
